@@ -376,27 +376,17 @@ _EXT = {}
 
 
 def build_extension():
-    """cythonize + compile the *current* /repo/yarl/_quoting_c.pyx into a scratch directory
-    (outside /repo and /verif, removed at exit) and import it, so that replays exercise exactly
-    the text whose verification conditions failed"""
+    """the compiled quoter built from the *current* /repo/yarl/_quoting_c.pyx (cached by the hash
+    of the .pyx text, contracts/extcache.py) and imported under a private name, so that replays
+    exercise exactly the text whose verification conditions failed"""
     if "mod" in _EXT:
         return _EXT["mod"]
-    import atexit
     import importlib.util
-    import shutil
-    import subprocess
-    import sysconfig
-    import tempfile
-    d = tempfile.mkdtemp(prefix="yarl_verif_ext_")
-    atexit.register(shutil.rmtree, d, True)
-    shutil.copy("/repo/yarl/_quoting_c.pyx", d + "/_quoting_c_replay.pyx")
-    subprocess.run(["/venv/bin/cython", "-3", "_quoting_c_replay.pyx", "-o", "_quoting_c_replay.c"], cwd=d, check=True,
-                   capture_output=True, timeout=120)
-    inc = sysconfig.get_paths()["include"]
-    so = d + "/_quoting_c_replay" + sysconfig.get_config_var("EXT_SUFFIX")
-    subprocess.run(["gcc", "-shared", "-fPIC", "-O1", "-fno-strict-aliasing", "-I" + inc, "_quoting_c_replay.c", "-o", so],
-                   cwd=d, check=True, capture_output=True, timeout=300)
-    spec = importlib.util.spec_from_file_location("_quoting_c_replay", so)
+    from contracts import extcache
+    so = extcache.built_extension()
+    if so is None:
+        raise RuntimeError("the compiled quoter could not be built from the current .pyx")
+    spec = importlib.util.spec_from_file_location("_quoting_c", so)
     mod = importlib.util.module_from_spec(spec)
     spec.loader.exec_module(mod)
     _EXT["mod"] = mod
